@@ -6,6 +6,7 @@ import Yld.Model.Api
 import Yld.Model.Parser
 import Yld.Model.Emit
 import Yld.Model.Cli
+import Yld.Model.PyRaw
 namespace Yld
 open Sexp
 
@@ -81,6 +82,20 @@ def runScenario (mode : Mode) (fuel : Nat) (ops : List Sexp) (pyTop : Bool := fa
     (e', outs ++ [o])) (({} : Engine), ([] : List Sexp))
   .list (.sym "results" :: outs)
 
+/-- A scenario over a script given as Python function definitions (tie T2q). -/
+def runRawScenario (fuel : Nat) (defs : List (String × PStmt)) (ops : List Sexp) : Sexp :=
+  let (_, outs) := ops.foldl (fun (e, outs) op =>
+    let (e', o) : Engine × Sexp := match op with
+      | .list (.sym "query" :: .str name :: sched :: ts) =>
+          match schedOfSexp sched, ts.mapM termOfSexp with
+          | some sched, some ts =>
+              let (e', r) := e.queryRawTop defs fuel name ts sched
+              (e', sexpOfResult r)
+          | _, _ => (e, .sym "bad-op")
+      | op => stepOp .compiled fuel e false op
+    (e', outs ++ [o])) (({} : Engine), ([] : List Sexp))
+  .list (.sym "results" :: outs)
+
 /-- `toPython` result as an S-expression. -/
 partial def sexpOfPyVal : PyVal → Sexp
   | .none => .sym "None"
@@ -127,6 +142,12 @@ def handle : Sexp → Sexp
       match modeOfSexp mode, natOfSexp fuel with
       | some m, some f => runScenario m f ops
       | none, some f => if mode == .sym "python" then runScenario .compiled f ops true else .sym "bad-op"
+      | _, _ => .sym "bad-op"
+  | .list (.sym "rawscenario" :: fuel :: .list defs :: ops) =>
+      match natOfSexp fuel, defs.mapM pstmtOfSexp with
+      | some f, some ds =>
+          let named := ds.filterMap fun d => match d with | .defS n _ _ => some (n, d) | _ => none
+          runRawScenario f named ops
       | _, _ => .sym "bad-op"
   | .list [.sym "unify", fuel, .list pairs, .list watch, sched] =>
       match natOfSexp fuel, pairs.mapM (fun p => match p with
